@@ -146,7 +146,9 @@ class AffectionRegister:
                 getter = self.__affectees_getters[affectee_filter]
             except KeyError as e:
                 raise UnknownAffecteeFilterError(affectee_filter) from e
-            affectee_fits = {i._fit for i in tgt_items if isinstance(i, Ship)}
+            affectee_fits = {
+                i._fit for i in tgt_items
+                if isinstance(i, Ship) and i in self.__affectees}
             return getter(self, affector_spec, ModDomain.ship, affectee_fits)
 
     def get_affector_specs(self, affectee_item):
@@ -494,7 +496,9 @@ class AffectionRegister:
             except KeyError as e:
                 raise UnknownAffecteeFilterError(affectee_filter) from e
             affectee_domain = ModDomain.ship
-            affectee_fits = {i._fit for i in tgt_items if isinstance(i, Ship)}
+            affectee_fits = {
+                i._fit for i in tgt_items
+                if isinstance(i, Ship) and i in self.__affectees}
             return getter(self, affector_spec, affectee_domain, affectee_fits)
 
     def __get_local_affector_storages_self(self, affector_spec):
